@@ -415,6 +415,22 @@ V_HARNESS(h_xdsdec)
     for (l = 0; l < 8; l++) if (l != (XTYP & 7)) for (i = 0; i < 33; i++) V_ASSERT(pi->description[l][i] == pi0.description[l][i], "xds_other_description_lines_kept");
     V_REACH("string");
   }
+  /* ---- "announced after the documented repeat": new data is remembered as seen once (never absorbed silently), the second identical
+     occurrence raises PROG_INFO.  `changed` is decided on the strings themselves (old record vs. the reference decode of the packet) ---- */
+  if (XCLS <= 1 && ((XTYP == 3 && XLEN >= 2) || (XTYP >= 0x10 && XTYP <= 0x17))) {
+    const signed char *old = (XTYP == 3) ? pi0.title : pi0.description[XTYP & 7];
+    int changed = 0, seen_before = (o_cyc[XCLS & 1] >> XTYP) & 1, prog_ev = 0;
+    for (i = 0; i < 33; i++) { if (i < nwant && (uint8_t) old[i] != want[i]) changed = 1; if (i == nwant && old[i] != 0) changed = 1; }
+    for (i = 0; i < EVMAX; i++) if (i < EVN && EVT[i] == VBI_EVENT_PROG_INFO) prog_ev = 1;
+    if (changed) {
+      V_ASSERT((VBI.cc.info_cycle[XCLS & 1] >> XTYP) & 1, "xds_changed_text_is_remembered_for_announcement");
+      V_ASSERT(!prog_ev, "xds_changed_text_not_announced_at_first_occurrence");
+      V_REACH("changed");
+    } else if (XTYP != 3) {
+      if (seen_before) { V_ASSERT(prog_ev && VBI.cc.info_cycle[XCLS & 1] == 0, "xds_second_identical_occurrence_is_announced"); V_REACH("announced"); }
+      else V_ASSERT(!prog_ev, "xds_unchanged_text_not_announced_again");
+    }
+  }
   if (XCLS <= 1 && XTYP == 1 && XLEN == 4) {
     int month = buf[3] & 15, day = buf[2] & 31, hour = buf[1] & 31, min = buf[0] & 63;
     if (month >= 1 && month <= 12 && day >= 1 && hour <= 23 && min <= 59) {
